@@ -84,6 +84,7 @@ static void out_query(hwloc_topology_t t, hwloc_const_bitmap_t q, int *first) {
 static void out_state(hwloc_topology_t t) {
   int nr, i, r, eff, first; struct hwloc_infos_s *infosp; hwloc_bitmap_t set = hwloc_bitmap_alloc(), q = hwloc_bitmap_alloc();
   out("{\"topo\":"); out_set(hwloc_topology_get_topology_cpuset(t));
+  out(",\"allowed\":"); out_set(hwloc_topology_get_allowed_cpuset(t));
   errno = 0; nr = hwloc_cpukinds_get_nr(t, 0);
   out(",\"nr\":"); out_rc(nr);
   errno = 0; r = hwloc_cpukinds_get_nr(t, 1); out(",\"nr_bf\":"); out_rc(r);
